@@ -99,7 +99,7 @@ func (v *Value) String() string {
 	case IntValue, FloatValue, EnumValue, BooleanValue, NullValue:
 		return v.Raw
 	case StringValue, BlockValue:
-		return strconv.Quote(v.Raw)
+		return quoteString(v.Raw)
 	case ListValue:
 		var val []string
 		for _, elem := range v.Children {
@@ -115,6 +115,44 @@ func (v *Value) String() string {
 	default:
 		panic(fmt.Errorf("unknown value kind %d", v.Kind))
 	}
+}
+
+// quoteString renders s as a GraphQL StringValue. Only the escapes of the GraphQL grammar are
+// used (strconv.Quote also produces \a, \v, \x.. and \U........, which no GraphQL lexer accepts).
+func quoteString(s string) string {
+	const hex = "0123456789abcdef"
+	var b strings.Builder
+	b.Grow(len(s) + 2)
+	b.WriteByte('"')
+	for i := 0; i < len(s); i++ {
+		c := s[i]
+		switch c {
+		case '"':
+			b.WriteString(`\"`)
+		case '\\':
+			b.WriteString(`\\`)
+		case '\b':
+			b.WriteString(`\b`)
+		case '\f':
+			b.WriteString(`\f`)
+		case '\n':
+			b.WriteString(`\n`)
+		case '\r':
+			b.WriteString(`\r`)
+		case '\t':
+			b.WriteString(`\t`)
+		default:
+			if c < 0x20 || c == 0x7f {
+				b.WriteString(`\u00`)
+				b.WriteByte(hex[c>>4])
+				b.WriteByte(hex[c&0xf])
+			} else {
+				b.WriteByte(c)
+			}
+		}
+	}
+	b.WriteByte('"')
+	return b.String()
 }
 
 func (v *Value) Dump() string {
